@@ -24,6 +24,11 @@ import (
 
 var log = logging.Logger("storethehash")
 
+// errLocationSuperseded is returned when the record at a location obtained
+// from the index cannot be used and the index has moved on to another location
+// for the key in the meantime.
+var errLocationSuperseded = errors.New("index location superseded")
+
 const (
 	// Primary types
 	MultihashPrimary = "multihash"
@@ -321,24 +326,29 @@ func (s *Store) Get(key []byte) ([]byte, bool, error) {
 	if err != nil {
 		return nil, false, err
 	}
-	fileOffset, found, err := s.index.Get(indexKey)
-	if err != nil {
-		return nil, false, err
-	}
-	if !found {
-		return nil, false, nil
-	}
+	for {
+		fileOffset, found, err := s.index.Get(indexKey)
+		if err != nil {
+			return nil, false, err
+		}
+		if !found {
+			return nil, false, nil
+		}
 
-	verifhook.Yield("store.Get.afterIndexGet")
-	primaryKey, value, err := s.getPrimaryKeyData(fileOffset, indexKey)
-	if err != nil {
-		return nil, false, err
-	}
-	if primaryKey == nil {
-		return nil, false, nil
-	}
+		verifhook.Yield("store.Get.afterIndexGet")
+		primaryKey, value, err := s.getPrimaryKeyData(fileOffset, indexKey)
+		if err == errLocationSuperseded {
+			continue
+		}
+		if err != nil {
+			return nil, false, err
+		}
+		if primaryKey == nil {
+			return nil, false, nil
+		}
 
-	return value, true, nil
+		return value, true, nil
+	}
 }
 
 func (s *Store) Err() error {
@@ -375,8 +385,17 @@ func (s *Store) Put(key []byte, value []byte) error {
 	var storedKey []byte
 	var storedVal []byte
 	var cmpKey bool
-	if found {
+	for found {
 		storedKey, storedVal, err = s.getPrimaryKeyData(prevOffset, indexKey)
+		if err != errLocationSuperseded {
+			break
+		}
+		prevOffset, found, err = s.index.Get(indexKey)
+		if err != nil {
+			return err
+		}
+	}
+	if found {
 		if err != nil {
 			return err
 		}
@@ -460,6 +479,16 @@ func (s *Store) Remove(key []byte) (bool, error) {
 	// If found, get the key and value stored in primary to see if it is the
 	// same (index only stores prefixes).
 	storedKey, _, err := s.getPrimaryKeyData(offset, indexKey)
+	for err == errLocationSuperseded {
+		offset, found, err = s.index.Get(indexKey)
+		if err != nil {
+			return false, err
+		}
+		if !found {
+			return false, nil
+		}
+		storedKey, _, err = s.getPrimaryKeyData(offset, indexKey)
+	}
 	if err != nil {
 		return false, err
 	}
@@ -500,10 +529,7 @@ func (s *Store) getPrimaryKeyData(blk types.Block, indexKey []byte) ([]byte, []b
 		// index entry regardless of which key in indexes. It is not safe to
 		// put this offset onto the free list, since it may be an invalid
 		// location in the primary.
-		if _, err = s.index.RemoveIfBlock(indexKey, blk); err != nil {
-			return nil, nil, fmt.Errorf("error removing unusable index: %w", err)
-		}
-		return nil, nil, nil
+		return nil, nil, s.removeUnusableIndex(indexKey, blk)
 	}
 
 	// Check that the stored key is the correct type.
@@ -515,10 +541,7 @@ func (s *Store) getPrimaryKeyData(blk types.Block, indexKey []byte) ([]byte, []b
 		// index. It is not safe to put this offset onto the free list, since
 		// it may be an invalid location in the primary.
 		log.Errorw("Bad key stored in primary or bad index, removing index", "err", err)
-		if _, err = s.index.RemoveIfBlock(indexKey, blk); err != nil {
-			return nil, nil, fmt.Errorf("error removing unusable index: %w", err)
-		}
-		return nil, nil, nil
+		return nil, nil, s.removeUnusableIndex(indexKey, blk)
 	}
 
 	// The index stores only prefixes, hence check if the given key fully
@@ -530,6 +553,29 @@ func (s *Store) getPrimaryKeyData(blk types.Block, indexKey []byte) ([]byte, []b
 	}
 
 	return storedKey, storedValue, nil
+}
+
+// removeUnusableIndex removes the index entry that has location blk for
+// indexKey. If the index no longer has that location for the key, then the
+// record was superseded, and reclaimed by GC, after the location was read from
+// the index. In that case errLocationSuperseded is returned to tell the caller
+// to look the key up again.
+func (s *Store) removeUnusableIndex(indexKey []byte, blk types.Block) error {
+	removed, err := s.index.RemoveIfBlock(indexKey, blk)
+	if err != nil {
+		return fmt.Errorf("error removing unusable index: %w", err)
+	}
+	if !removed {
+		return errLocationSuperseded
+	}
+	return nil
+}
+
+// locationSuperseded reports whether the index no longer has location blk for
+// indexKey.
+func (s *Store) locationSuperseded(indexKey []byte, blk types.Block) bool {
+	cur, found, err := s.index.Get(indexKey)
+	return err == nil && (!found || cur != blk)
 }
 
 func (s *Store) flushTick() {
@@ -676,21 +722,28 @@ func (s *Store) Has(key []byte) (bool, error) {
 	if err != nil {
 		return false, err
 	}
-	blk, found, err := s.index.Get(indexKey)
-	if !found || err != nil {
-		return false, err
-	}
-	verifhook.Yield("store.Has.afterIndexGet")
+	for {
+		blk, found, err := s.index.Get(indexKey)
+		if !found || err != nil {
+			return false, err
+		}
+		verifhook.Yield("store.Has.afterIndexGet")
 
-	// The index stores only prefixes, hence check if the given key fully matches the
-	// key that is stored in the primary storage before returning the actual value.
-	// TODO: avoid second lookup
-	primaryIndexKey, err := s.index.Primary.GetIndexKey(blk)
-	if err != nil {
-		return false, err
-	}
+		// The index stores only prefixes, hence check if the given key fully matches the
+		// key that is stored in the primary storage before returning the actual value.
+		// TODO: avoid second lookup
+		primaryIndexKey, err := s.index.Primary.GetIndexKey(blk)
+		if (err != nil || primaryIndexKey == nil) && s.locationSuperseded(indexKey, blk) {
+			// The record was superseded, and reclaimed by GC, after its
+			// location was read from the index. Look again.
+			continue
+		}
+		if err != nil {
+			return false, err
+		}
 
-	return bytes.Equal(indexKey, primaryIndexKey), nil
+		return bytes.Equal(indexKey, primaryIndexKey), nil
+	}
 }
 
 func (s *Store) GetSize(key []byte) (types.Size, bool, error) {
@@ -698,27 +751,34 @@ func (s *Store) GetSize(key []byte) (types.Size, bool, error) {
 	if err != nil {
 		return 0, false, err
 	}
-	blk, found, err := s.index.Get(indexKey)
-	if err != nil {
-		return 0, false, err
-	}
-	if !found {
-		return 0, false, nil
-	}
-	verifhook.Yield("store.GetSize.afterIndexGet")
+	for {
+		blk, found, err := s.index.Get(indexKey)
+		if err != nil {
+			return 0, false, err
+		}
+		if !found {
+			return 0, false, nil
+		}
+		verifhook.Yield("store.GetSize.afterIndexGet")
 
-	// The index stores only prefixes, hence check if the given key fully matches the
-	// key that is stored in the primary storage before returning the actual value.
-	// TODO: avoid second lookup
-	primaryIndexKey, err := s.index.Primary.GetIndexKey(blk)
-	if err != nil {
-		return 0, false, err
-	}
+		// The index stores only prefixes, hence check if the given key fully matches the
+		// key that is stored in the primary storage before returning the actual value.
+		// TODO: avoid second lookup
+		primaryIndexKey, err := s.index.Primary.GetIndexKey(blk)
+		if (err != nil || primaryIndexKey == nil) && s.locationSuperseded(indexKey, blk) {
+			// The record was superseded, and reclaimed by GC, after its
+			// location was read from the index. Look again.
+			continue
+		}
+		if err != nil {
+			return 0, false, err
+		}
 
-	if !bytes.Equal(indexKey, primaryIndexKey) {
-		return 0, false, nil
+		if !bytes.Equal(indexKey, primaryIndexKey) {
+			return 0, false, nil
+		}
+		return blk.Size - types.Size(len(key)), true, nil
 	}
-	return blk.Size - types.Size(len(key)), true, nil
 }
 
 // IndexStorageSize returns the storage used by the index files.
